@@ -7,6 +7,9 @@ constructors).  Route per process:
   legacy       transition=[...] (T) or birth_death=[...] (B/D); single transition, magnitude 1 only
   add_*        the same four, but added after construction through add_event/add_transition/add_birth_death
 
+Declarations: state_decl / param_decl in {"list", "string", "objects"}; "objects" hands over ODEVariable(ID, display)
+with the display names of model["state_display"] / model["param_display"] (identifier when not listed).
+
 Births may be named by origin (legacy spelling) or by destination: tr["birth_by"] in {"o","d"}.
 """
 import numpy as np
@@ -56,12 +59,21 @@ def make_process(pg, pr, route):
     raise ValueError(route)
 
 
+def _ode_variable(name, display):
+    from pygom import ODEVariable
+    return ODEVariable(name, display.get(name, name))
+
+
 def state_decl(model):
     style = model.get("state_decl", "list")
     names = [s["name"] for s in model["states"]]
     has_lim = any(s.get("lim") is not None for s in model["states"])
     if style == "string" and not has_lim:
         return model.get("state_sep", " ").join(names)
+    if style == "objects" and not has_lim:
+        # ODEVariable objects: identifier plus a display name that may differ from it (and may be
+        # another variable's identifier); every lookup must go by identifier
+        return [_ode_variable(nm, model.get("state_display", {})) for nm in names]
     out = []
     for s in model["states"]:
         if s.get("lim") is not None:
@@ -76,6 +88,8 @@ def param_decl(model):
     names = list(model["params"])
     if style == "string":
         return model.get("param_sep", ",").join(names)
+    if style == "objects":
+        return [_ode_variable(nm, model.get("param_display", {})) for nm in names]
     return names
 
 
